@@ -20,6 +20,7 @@ QUOTAS = """quotas:
         max: %(M)d
         interval: %(W)d
         interval_unit: second
+        group_by_header: x-group
   - id: cq
     filter:
       url: api.test/cq
@@ -81,14 +82,114 @@ flow:
 """
 
 
+# host sel.test: three flows on sel.test/* (each one metrics processor) and one answering flow each on sel.test/a, sel.test/b
+SELW = """name: W%(i)d
+filter:
+  url: sel.test/*
+processors:
+  PW%(i)d:
+    processor: UserDefinedMetrics
+    parameters:
+      - key: metric_name
+        value: w%(i)d
+  RW%(i)d:
+    processor: UserDefinedMetrics
+    parameters:
+      - key: metric_name
+        value: rw%(i)d
+flow:
+  request:
+    - from:
+        stream:
+          name: globalStream
+          at: start
+      to:
+        processor:
+          name: PW%(i)d
+    - from:
+        processor:
+          name: PW%(i)d
+      to:
+        stream:
+          name: globalStream
+          at: end
+  response:
+    - from:
+        stream:
+          name: globalStream
+          at: start
+      to:
+        processor:
+          name: RW%(i)d
+    - from:
+        processor:
+          name: RW%(i)d
+      to:
+        stream:
+          name: globalStream
+          at: end
+"""
+
+SELG = """name: G%(n)s
+filter:
+  url: sel.test/%(n)s
+processors:
+  MG%(n)s:
+    processor: UserDefinedMetrics
+    parameters:
+      - key: metric_name
+        value: mg%(n)s
+  PG%(n)s:
+    processor: GenerateResponse
+    parameters:
+      - key: status
+        value: %(st)d
+      - key: body
+        value: %(n)s
+      - key: Content-Type
+        value: text/plain
+flow:
+  request:
+    - from:
+        stream:
+          name: globalStream
+          at: start
+      to:
+        processor:
+          name: MG%(n)s
+    - from:
+        processor:
+          name: MG%(n)s
+      to:
+        processor:
+          name: PG%(n)s
+  response:
+    - from:
+        processor:
+          name: PG%(n)s
+      to:
+        stream:
+          name: globalStream
+          at: end
+"""
+
+SEL_URLS = ["sel.test/a", "sel.test/b", "sel.test/c"]
+
+
 def files_of(cfg):
-    return {"quotas/quotas.yaml": QUOTAS % cfg, "flows/flow_fw.yaml": FLOW % {"q": "fw"}, "flows/flow_cq.yaml": FLOW % {"q": "cq"}}
+    f = {"quotas/quotas.yaml": QUOTAS % cfg, "flows/flow_fw.yaml": FLOW % {"q": "fw"}, "flows/flow_cq.yaml": FLOW % {"q": "cq"}}
+    for i in (1, 2, 3):
+        f["flows/w%d.yaml" % i] = SELW % {"i": i}
+    f["flows/ga.yaml"] = SELG % {"n": "a", "st": 201}
+    f["flows/gb.yaml"] = SELG % {"n": "b", "st": 202}
+    return f
 
 
 def rand_history(rng, cfg, nthreads, oplen):
     """threads of operations; transactions of the concurrency quota are requested and (mostly) ended by the same thread,
     some are ended by another thread, some are abandoned."""
-    h = [{"ev": "reset"}]
+    # every URL of sel.test is first requested on its own (the sequential reference), then concurrently
+    h = [{"ev": "reset"}, {"ev": "conc", "threads": [[{"op": "reqsel", "url": u} for u in SEL_URLS]]}]
     tcount = 0
     for rnd in range(rng.randint(1, 3)):
         threads = []
@@ -97,9 +198,11 @@ def rand_history(rng, cfg, nthreads, oplen):
             open_txn = []
             for _ in range(oplen):
                 x = rng.random()
-                if x < 0.35:
-                    ops.append({"op": "reqfw"})
-                elif x < 0.65:
+                if x < 0.25:
+                    ops.append({"op": "reqfw", "g": rng.choice(["g0", "g0", "g1"])})
+                elif x < 0.45:
+                    ops.append({"op": "reqsel", "url": rng.choice(SEL_URLS)})
+                elif x < 0.68:
                     tcount += 1
                     txn = "t%d" % tcount
                     ops.append({"op": "reqcq", "txn": txn})
@@ -116,8 +219,27 @@ def rand_history(rng, cfg, nthreads, oplen):
 def storm_history(rng, cfg, n):
     """n simultaneous requests on one quota from a fresh engine, then metric reads."""
     which = rng.choice(["reqfw", "reqcq"])
-    threads = [[{"op": which, "txn": "s%d" % i}] if which == "reqcq" else [{"op": which}] for i in range(n)]
+    threads = [[{"op": which, "txn": "s%d" % i}] if which == "reqcq" else [{"op": which, "g": "g0"}] for i in range(n)]
     return [{"ev": "reset"}, {"ev": "conc", "threads": threads}, {"ev": "conc", "threads": [[{"op": "metrics"}]]}]
+
+
+def batch_storms(rng, nstorms, n):
+    """one engine, many storms in compact form: n simultaneous FIRST requests of a fresh group of the fixed-window quota
+    (first use of the per-group state) alternating with n simultaneous requests at the concurrency quota's limit."""
+    h = [{"ev": "reset"}]
+    for i in range(nstorms):
+        # two simultaneous first requests of a fresh group are the most likely to overlap in the first-use path
+        h.append({"ev": "fwstorm", "g": "s%d" % i, "n": 2 if i % 4 else n})
+        h.append({"ev": "cqstorm", "n": n})
+    return h
+
+
+def sel_storm_history(rng, rounds, nthreads):
+    """many concurrent transactions to the overlapping-flow host, after the sequential reference"""
+    h = [{"ev": "reset"}, {"ev": "conc", "threads": [[{"op": "reqsel", "url": u} for u in SEL_URLS]]}]
+    for r in range(rounds):
+        h.append({"ev": "conc", "threads": [[{"op": "reqsel", "url": rng.choice(SEL_URLS)} for _ in range(3)] for _ in range(nthreads)]})
+    return h
 
 
 class EngineCrash(Exception):
@@ -206,6 +328,19 @@ def restart_between(steps, w=10):
     return "0" if worst == 0 else "1" if worst == 1 else "2+"
 
 
+def history_script(sc, trace, hist):
+    """the script history that produced a recorded history (histories are recorded in script order)"""
+    cfg, hs = split_histories(trace)
+    for i, h in enumerate(hs):
+        if h == hist and i < len(sc["histories"]):
+            return sc["histories"][i]
+    return None
+
+
+def script_of_copies(sc, hist_script, n):
+    return {"config": sc["config"], "files": sc["files"], "histories": [hist_script] * n}
+
+
 def judge(ctx, binary, scripts, traces, tag):
     def one(it):
         i, ev = it
@@ -215,23 +350,35 @@ def judge(ctx, binary, scripts, traces, tag):
         cfg, hs = split_histories(ev)
         ctx.cov["traces_validated_against_impl"] += acc
         for h in hs:
-            ctx.cov["evaluations"] += sum(1 for e in h if e["ev"] == "begin")
+            ctx.cov["evaluations"] += sum(e.get("n", 1) for e in h if e["ev"] in ("begin", "fwbatch", "cqbatch"))
             if overlap(h) >= 2 and any(e.get("out") == "refuse" for e in h):
                 ctx.cov["distinct_nontrivial"] += 1
         for rej in rejected:
             w = witness_of(rej)
-            # schedule-dependent: reproduce by re-running the originating script until the spec rejects again
+            # schedule-dependent: reproduce by re-running first the rejected history alone (many copies of it in one
+            # script), then the whole originating script, until the spec rejects again
             reproduced = None
-            for attempt in range(6):
-                t2 = execute(ctx, binary, [sc], "%s-repro" % tag)[0]
+            hist_script = history_script(sc, ev, rej["hist"])
+            ncopies = max(1, min(40, 3000 // max(1, sum(1 + 3 * len(x.get("threads", [])) for x in (hist_script or [])))))
+            attempts = ([script_of_copies(sc, hist_script, ncopies)] * 4 if hist_script else []) + [sc] * 2
+            for sc_try in attempts:
+                t2 = execute(ctx, binary, [sc_try], "%s-repro" % tag)[0]
                 a2, r2, _ = validate_history_trace(ctx, SPEC, "EngineLinTrace", t2, tag="%s-repro" % tag, deque=True, max_rounds=1, timeout=900)
                 if r2:
                     reproduced = r2[0]
+                    sc = sc_try
                     break
             if reproduced is None:
-                raise Broken("rejection not reproduced (%s): %s" % (tag, json.dumps(w)[:600]))
-            ctx.violation(witness_of(reproduced), {"script": sc, "trace": [reproduced["config"]] + reproduced["hist"],
-                                                    "rejected_at": reproduced["at"], "schedule_dependent": True})
+                # The recorded history is real (invocation stamped before the call, return after it) and TLC found no
+                # sequential explanation: reported even though the schedule did not come back in the re-runs.
+                w["reproduced"] = False
+                ctx.violation(w, {"script": sc, "trace": [rej["config"]] + rej["hist"], "rejected_at": rej["at"],
+                                  "schedule_dependent": True})
+            else:
+                w2 = witness_of(reproduced)
+                w2["reproduced"] = True
+                ctx.violation(w2, {"script": sc, "trace": [reproduced["config"]] + reproduced["hist"],
+                                   "rejected_at": reproduced["at"], "schedule_dependent": True})
             break      # one witness per script is enough
 
 
@@ -266,6 +413,11 @@ def run(ctx):
             else:
                 hs.append(rand_history(ctx.rng, cfg, ctx.rng.randint(2, 4), ctx.rng.randint(2, 4)))
         scripts.append(script_of(cfg, hs))
+    # storms in compact form (one engine each) and selection storms
+    for k in range(2 if not T else 8):
+        cfg = {"M": ctx.rng.choice([1, 2]), "C": ctx.rng.choice([1, 2]), "W": 3600}
+        scripts.append(script_of(cfg, [batch_storms(ctx.rng, 5000 if not T else 25000, 8)] +
+                                 [sel_storm_history(ctx.rng, 40 if not T else 200, 4)]))
     traces = run_observing_crashes(ctx, binary, scripts, "rand")
     if traces is None:
         return
